@@ -237,30 +237,74 @@ def _fmt(ls):
     return ','.join(sorted(ls))
 
 
+PRED_CALLS = {   # Option/Result predicates are discriminant tests: (tested type, label of `true`, label of `false`)
+    'is_some': ('Option', '1', '0'), 'is_none': ('Option', '0', '1'),
+    'is_ok': ('Result', '0', '1'), 'is_err': ('Result', '1', '0'),
+}
+
+
+def _variant_count(fn, place):
+    from .arms import place_type
+    ty = place_type(fn, place)
+    if not ty:
+        return None, None
+    base = ty.replace('&mut ', '').replace('&', '')
+    head = base.split('<', 1)[0]
+    adt = fn.facts.adts.get(head)
+    if adt is None:
+        # generic instantiations are stored under their generic path
+        for k in fn.facts.adts:
+            if k.split('<', 1)[0] == head:
+                adt = fn.facts.adts[k]
+                break
+    if head in ('core::option::Option', 'core::result::Result', 'core::ops::ControlFlow'):
+        return _short_ty(ty), 2
+    if adt is not None and adt.get('variants'):
+        return _short_ty(ty), len(adt['variants'])
+    return _short_ty(ty), None
+
+
 def condition_sig(fn, s):
-    """what a switch tests, name-free: discr(<enum>:<of what>) / {operands and comparison operator} / <callee>(<args>)"""
+    """(what a switch tests, function mapping the switch's raw outcome labels to canonical ones).
+    Name-free: discr(<enum>:<of what>) / <cmp-op>(<leaves>;<leaves>) / <callee>(<args>).  Canonical outcomes never use the
+    `otherwise` label when the domain is known (bool, enum discriminant): `if let` vs `match`, which arm is written last,
+    `is_none()` vs a `match` on the Option do not change them."""
     t = fn.term(s)
     d = t['d']
+    listed = [str(v) for v, _ in t['v']]
+
+    def expand(domain):
+        rest = [x for x in domain if x not in listed]
+        return lambda lab: ([lab] if lab != '_' else rest)
+    ident = lambda lab: [lab]
     if d[0] == 'k':
-        return 'const'
+        return 'const', ident
     pl = d[1]
+    is_bool = len(pl) == 1 and pl[0] < len(fn.locals) and fn.ty(pl[0]) == 'bool'
+    boolmap = expand(['0', '1']) if is_bool else ident
     if len(pl) == 1:
         sd = fn.single_def(pl[0])
         if sd is not None:
             if sd[1] == 'term':
                 f = sd[2]['f']
+                nm = f.get('name') or 'fnptr'
+                if nm in PRED_CALLS and sd[2]['a']:
+                    tyname, t_lab, f_lab = PRED_CALLS[nm]
+                    raw = expand(['0', '1'])
+                    return ('discr(%s:%s)' % (tyname, _fmt(leaves(fn, sd[2]['a'][0], 6))),
+                            lambda lab: [t_lab if x == '1' else f_lab for x in raw(lab)])
                 args = ';'.join(_fmt(leaves(fn, a_, 6)) for a_ in sd[2]['a'])
-                return '%s(%s)' % (f.get('name') or 'fnptr', args)
+                return '%s(%s)' % (nm, args), boolmap
             rv = sd[2]
             if rv[0] == 'discr':
-                from .arms import place_type
-                ty = place_type(fn, rv[1])
-                return 'discr(%s:%s)' % (_short_ty(ty) if ty else '?', _fmt(place_leaves(fn, rv[1], 6)))
+                tyname, n = _variant_count(fn, rv[1])
+                m = expand([str(i) for i in range(n)]) if n else ident
+                return 'discr(%s:%s)' % (tyname or '?', _fmt(place_leaves(fn, rv[1], 6))), m
             if rv[0] == 'bin':
-                return '%s(%s;%s)' % (rv[1], _fmt(leaves(fn, rv[2], 6)), _fmt(leaves(fn, rv[3], 6)))
+                return '%s(%s;%s)' % (rv[1], _fmt(leaves(fn, rv[2], 6)), _fmt(leaves(fn, rv[3], 6))), boolmap
             if rv[0] == 'un':
-                return '%s(%s)' % (rv[1], _fmt(leaves(fn, rv[2], 6)))
-    return 'val(%s)' % _fmt(leaves(fn, d, 6))
+                return '%s(%s)' % (rv[1], _fmt(leaves(fn, rv[2], 6))), boolmap
+    return 'val(%s)' % _fmt(leaves(fn, d, 6)), boolmap
 
 
 def flow_fingerprint(fn, summ):
@@ -308,8 +352,9 @@ def flow_fingerprint(fn, summ):
                     tgt = ('self' if base == 1 and fn.impl_self_adt else 'arg%d' % base) + '.' + '.'.join(names)
             if tgt is not None and name:
                 rows['%s <- %s()' % (tgt, name)] += 1
-    rows = {k: v for k, v in rows.items() if not k.startswith('var:() <-')}
-    return ['%s *%d' % kv if kv[1] > 1 else kv[0] for kv in sorted(rows.items())]
+    # a set, not a multiset (duplicating a `return None` or splitting `a || b` into two ifs changes nothing); unit and bool
+    # temporaries are artefacts of `&&` / `||` / `if` lowering
+    return sorted(k for k in rows if not k.startswith(('var:() <-', 'var:bool <- k')))
 
 
 def _rv_leaves(fn, rv, depth=8):
@@ -377,15 +422,18 @@ def events(fn, summ):
 def ctl_fingerprint(fn, summ):
     closure, direct = control_deps(fn)
     sigs = {}
-    rows = defaultdict(int)
+    rows = set()
     for b, lab in events(fn, summ):
-        conds = []
+        conds = {}
         for s, labs in closure.get(b, {}).items():
             if s not in sigs:
                 sigs[s] = condition_sig(fn, s)
-            conds.append('%s=%s' % (sigs[s], '|'.join(sorted(labs))))
-        rows['%s @ %s' % (lab, ' & '.join(sorted(conds)) or '-')] += 1
-    return ['%s *%d' % kv if kv[1] > 1 else kv[0] for kv in sorted(rows.items())]
+            sig, canon = sigs[s]
+            out = conds.setdefault(sig, set())
+            for l in labs:
+                out.update(canon(l))
+        rows.add('%s @ %s' % (lab, ' & '.join('%s=%s' % (k, '|'.join(sorted(v))) for k, v in sorted(conds.items())) or '-'))
+    return sorted(rows)
 
 
 # ---- loop-carried locals --------------------------------------------------------------------------
